@@ -40,6 +40,22 @@ func (c *Ctx) ackAcceptsTypes() {
 	}
 	g.Expand = func(callee *ssa.Function, site ssa.CallInstruction) bool { return expanded(callee) }
 	entry := []paths.Node{g.Entry()}
+	// the dispatch written as a table of handler functions keyed by the message type
+	var table map[string]constant.Value
+	var tableFns map[string]*ssa.Function
+	var tableLookup *ssa.Lookup
+	for _, n := range g.All() {
+		if lk, ok := n.Instr.(*ssa.Lookup); ok && lk.CommaOk && describeOperand(lk.Index) == "Message.Type" {
+			if u, ok := lk.X.(*ssa.UnOp); ok {
+				if gm, ok := u.X.(*ssa.Global); ok {
+					if tab, ok := globalMapInit(gm); ok {
+						table, tableFns, tableLookup = tab, globalMapFuncs(gm), lk
+					}
+				}
+			}
+		}
+	}
+	judgedHandler := map[*ssa.Function]bool{}
 	for _, k := range []int64{4, 5, 6, 7, 9, 11, 13} {
 		atom := fmt.Sprintf("eq:Message.Type:%d", k)
 		key := "Ack:accepts(" + typeNames[k] + ")"
@@ -51,6 +67,9 @@ func (c *Ctx) ackAcceptsTypes() {
 					found = true
 				}
 			}
+		}
+		if _, inTable := table[fmt.Sprint(k)]; inTable {
+			found = true
 		}
 		if !found {
 			c.R.Bad(ruleT2, key, c.P.Pos(fn.Pos()), "Ack has no branch for "+typeNames[k]+": such an acknowledgement is rejected and the waiting request never completes")
@@ -71,7 +90,36 @@ func (c *Ctx) ackAcceptsTypes() {
 			if src := errCallSource(res); src != nil && expanded(src.Common().StaticCallee()) && n.F != nil && n.F.Depth < g.MaxDepth {
 				return false // the helper's own returns are judged
 			}
+			// the result of the handler taken from the table: the handler's own returns are judged below
+			if src := errCallSource(res); src != nil && tableLookup != nil && src.Common().StaticCallee() == nil && !src.Common().IsInvoke() {
+				if ex, ok := src.Common().Value.(*ssa.Extract); ok && ex.Tuple == ssa.Value(tableLookup) && ex.Index == 0 && tableFns[fmt.Sprint(k)] != nil {
+					return false
+				}
+			}
 			return true
+		}
+		if h := tableFns[fmt.Sprint(k)]; h != nil && !judgedHandler[h] {
+			judgedHandler[h] = true
+			hg := paths.New(c.P, h, 1)
+			hbad := func(n paths.Node) bool {
+				ret, ok := n.Instr.(*ssa.Return)
+				if !ok || n.F != hg.Root || len(ret.Results) == 0 {
+					return false
+				}
+				res := ir.ReturnOperand(ret, len(ret.Results)-1)
+				if kc, ok := res.(*ssa.Const); ok && kc.IsNil() {
+					return false
+				}
+				if src := errCallSource(res); src != nil && src.Common().IsInvoke() && src.Common().Method.Name() == "Encode" {
+					return false
+				}
+				return true
+			}
+			if p := hg.FindPath([]paths.Node{hg.Entry()}, nil, hbad); p != nil {
+				c.R.Bad(ruleT2, "Ack:handler("+h.Name()+"):fails-only-on-encode", c.P.InstrPos(p[len(p)-1].Instr), "the handler the dispatch table names for this acknowledgement can return an error although nothing is wrong with the packet", c.witness(hg, p)...)
+			} else {
+				c.R.Ok(ruleT2, "Ack:handler("+h.Name()+"):fails-only-on-encode", c.P.Pos(h.Pos()), "returns nil or the error of re-encoding the ack")
+			}
 		}
 		if p := reach(g, entry, nil, badRet, Assume{atom: true}); p != nil {
 			c.R.Bad(ruleT2, key, c.P.InstrPos(p[len(p)-1].Instr), "Ack can return an error for a "+typeNames[k]+" although nothing is wrong with the packet (not an Encode failure): the handler then skips its reply / completion", c.witness(g, p)...)
